@@ -61,7 +61,7 @@ def build_cmd(kind, k):
 
 
 def make_hid_world(driver, kinds, exc_on, limit, ret, nloss=1, tail=0, start_seq=1, cancel=False, cancel_who=0, eager=False, exc_via="attr",
-                   use_glob=False):
+                   use_glob=False, fail_write_at=None):
     """exc_on: whether callers want CommunicationError (True) or a transparent retry (False).  exc_via: how they say so -
     "attr": the driver-wide exceptions_on_send attribute; "arg": the per-call exceptions= argument, with the attribute set
     the OTHER way round (the argument has to win)."""
@@ -105,6 +105,7 @@ def make_hid_world(driver, kinds, exc_on, limit, ret, nloss=1, tail=0, start_seq
         w = HidWorld(driver, bus, callers, start_seq=start_seq, reconnect_limit=limit,
                      exceptions_on_send=(exc_on if exc_via == "attr" else not exc_on), loss=nloss > 0, returns=ret)
         w.loss_budget = nloss
+        w.fail_write_at = fail_write_at # the gateway disappears at exactly the n-th os.write made while the driver is connected
         w.use_glob = use_glob           # device named by a glob pattern; it comes back under the NEXT node name (USB re-enumeration)
         w.cmds = cmds
         w.gens = gens
@@ -397,6 +398,11 @@ def shards(tier):
             for exc_on in (True, False):
                 for ret in (False, True):
                     out.append(("loss", drv, kinds, exc_on, None, ret, 1, 2 if len(kinds) == 1 else 1, "arg"))
+        # the gateway disappears AT a write (every write of the scenario in turn, the second write of a send-twice frame included)
+        for kinds in (("twice",), ("num",), ("dt",), ("twice", "num")):
+            for exc_on in (True, False):
+                for nw in range(1, 6):
+                    out.append(("loss", drv, kinds, exc_on, None, True, 0, 1 if tier == "quick" else 2, "attr", f"wfail:{nw}"))
         # the device is named by a glob pattern and re-enumerates under another node name when it returns
         for kinds, exc_on, limit, nloss in ((("num",), True, None, 1), (("num",), False, None, 1), (("num", "off"), False, 3, 1), (("num",), True, 3, 2),
                                             (("seq",), True, None, 1)):
@@ -430,8 +436,9 @@ def run_shard(shard):
         _, drv, kinds, exc_on, limit, ret, nloss, bound = shard[:8]
         via = shard[8] if len(shard) > 8 else "attr"
         use_glob = len(shard) > 9 and shard[9] == "glob"
-        cfg = dict(driver=drv, kinds=list(kinds), exc_on=exc_on, limit=limit, ret=ret, nloss=nloss, bound=bound, exc_via=via, use_glob=use_glob)
-        mk = make_hid_world(drv, kinds, exc_on, limit, ret, nloss, exc_via=via, use_glob=use_glob)
+        wfail = int(shard[9].split(":")[1]) if len(shard) > 9 and str(shard[9]).startswith("wfail:") else None
+        cfg = dict(driver=drv, kinds=list(kinds), exc_on=exc_on, limit=limit, ret=ret, nloss=nloss, bound=bound, exc_via=via, use_glob=use_glob, wfail=wfail)
+        mk = make_hid_world(drv, kinds, exc_on, limit, ret, nloss, exc_via=via, use_glob=use_glob, fail_write_at=wfail)
         for ch, (w, obs) in explore(lambda c: execute(mk, c), bound):
             outs.add(judge_hid(res, cfg, w, obs))
             res["evaluations"] += 1
@@ -474,7 +481,7 @@ def replay(case):
                                 cancel_who=cfg.get("cancel_who", 0), eager=cfg.get("eager", False))
         else:
             mk = make_hid_world(cfg["driver"], tuple(cfg["kinds"]), cfg["exc_on"], cfg["limit"], cfg["ret"], cfg.get("nloss", 1),
-                                exc_via=cfg.get("exc_via", "attr"), use_glob=cfg.get("use_glob", False))
+                                exc_via=cfg.get("exc_via", "attr"), use_glob=cfg.get("use_glob", False), fail_write_at=cfg.get("wfail"))
         for ch, (w, obs) in explore(lambda c: execute(mk, c), cfg.get("bound", 2)):
             n0 = len(res["violations"])
             judge_hid(res, cfg, w, obs)
